@@ -3773,10 +3773,11 @@ def restore_attribute_names(tree, modname):
   p = os.path.join(os.path.dirname(os.path.abspath(__file__)), 'canon_attrs.json')
   try:
     with open(p) as f:
-      ref = json.load(f).get(modname) or {}
+      allref = json.load(f)
+      ref = allref.get(modname) or {}
   except (OSError, ValueError):
     return 0
-  vocab = _load_vocab() or set()
+  vocab = set(allref.get('__all__') or (_load_vocab() or set()))     # attribute names the reference tree uses
   count = 0
   for _round in range(16):
     cur = class_attrs(tree)
